@@ -280,6 +280,11 @@ def audit(prop_id, required):
         res['broken'].append('missing ' + props_file)
         return res
     src = open(props_file).read()
+    # theorems of the source-derived tie (ChiProofs/Tie/<ID>.lean, see harness/srctie.py) are audited with the property's
+    tie_file = os.path.join(LEAN_DIR, 'ChiProofs', 'Tie', prop_id + '.lean')
+    has_tie = os.path.exists(tie_file)
+    if has_tie:
+        src += '\n' + open(tie_file).read()
     # forbidden constructs anywhere in the sources this property's proofs can reach
     for root, _, files in os.walk(LEAN_DIR):
         if '.lake' in root:
@@ -320,6 +325,8 @@ def audit(prop_id, required):
         afile = os.path.join(adir, 'Audit_%s.lean' % prop_id)
         with open(afile, 'w') as fh:
             fh.write('import ChiProofs.Props.%s\n' % prop_id)
+            if has_tie:
+                fh.write('import ChiProofs.Tie.%s\n' % prop_id)
             for nm in full_names:
                 fh.write('#print axioms %s\n' % nm)
         r = subprocess.run(['lake', 'env', 'lean', afile], cwd=LEAN_DIR, capture_output=True,
@@ -351,6 +358,9 @@ def audit(prop_id, required):
 def leanchecker(prop_id):
     r = subprocess.run(['lake', 'env', 'leanchecker', 'ChiProofs.Props.' + prop_id], cwd=LEAN_DIR,
                        capture_output=True, text=True)
+    if r.returncode == 0 and os.path.exists(os.path.join(LEAN_DIR, 'ChiProofs', 'Tie', prop_id + '.lean')):
+        r = subprocess.run(['lake', 'env', 'leanchecker', 'ChiProofs.Tie.' + prop_id], cwd=LEAN_DIR,
+                           capture_output=True, text=True)
     return r.returncode == 0, (r.stdout + r.stderr)[-1500:]
 
 
